@@ -37,6 +37,10 @@ pub struct GenCfg {
     /// custom scalars may carry `@nitrogql_ts_type(resolverInput:…, …)` (the directive the graphql-scalars plugin
     /// emits; its definition is the nitrogql built-in that `nvh::real` adds like the CLI does)
     pub ts_type_directive: bool,
+    /// descriptions may be `delimiter_text`s: REPEATED comment-/string-delimiter-like tokens on one line and across
+    /// lines (`*/` ×2–4, `/*`, `*/*/`, `/**/`, `*\/`, backslashes before `*/`, at line start / end). Default off: no
+    /// random choice is drawn for it, so the streams of the properties that do not set it are unchanged.
+    pub delimiter_text: bool,
 }
 
 impl Default for GenCfg {
@@ -54,6 +58,7 @@ impl Default for GenCfg {
             coercions: false,
             covariant_fields: true,
             ts_type_directive: false,
+            delimiter_text: false,
         }
     }
 }
@@ -126,9 +131,59 @@ const HOSTILE: [&str; 12] = [
 ];
 const PLAIN: [&str; 5] = ["A description.", "the user", "id of the thing", "List of items", "x"];
 
+/// tokens that look like (parts of) comment delimiters of the languages the printers emit
+pub const DELIM_TOKENS: [&str; 16] = ["*/", "*/", "*/", "/*", "*/*/", "/**/", "*\\/", "\\*/", "\\\\*/", "**/", "/**", "*//*", "*", "/", "//", "\\"];
+const DELIM_WORDS: [&str; 10] = ["a", "b c", "src/**/*.ts", "test/**/*.ts", "x", "@deprecated", "{@link T}", "export type X = 1", "é😀", "`${y}`"];
+
+/// A text (1–4 lines) in which every line carries one delimiter-like token 2–4 times — glued together, separated by
+/// blanks or by words, at the very start and / or the very end of the line — possibly mixed with other tokens of
+/// `DELIM_TOKENS`. Never empty, no leading / trailing white space on any line.
+pub fn delimiter_text(rng: &mut Rng) -> String {
+    let nlines = if rng.chance(1, 3) { 2 + rng.below(3) } else { 1 };
+    let mut lines = vec![];
+    for _ in 0..nlines {
+        let main = DELIM_TOKENS[rng.below(DELIM_TOKENS.len())];
+        let reps = 2 + rng.below(3);
+        let glue = rng.below(4);
+        let mut l = String::new();
+        if rng.coin() {
+            l.push_str(DELIM_WORDS[rng.below(DELIM_WORDS.len())]);
+            if rng.coin() {
+                l.push(' ');
+            }
+        }
+        for k in 0..reps {
+            if k > 0 {
+                match glue {
+                    0 => {}
+                    1 => l.push(' '),
+                    2 => {
+                        l.push(' ');
+                        l.push_str(DELIM_WORDS[rng.below(DELIM_WORDS.len())]);
+                        l.push(' ');
+                    }
+                    _ => l.push_str(DELIM_WORDS[rng.below(DELIM_WORDS.len())]),
+                }
+            }
+            l.push_str(if k > 0 && rng.chance(1, 4) { DELIM_TOKENS[rng.below(DELIM_TOKENS.len())] } else { main });
+        }
+        if rng.coin() {
+            if rng.coin() {
+                l.push(' ');
+            }
+            l.push_str(DELIM_WORDS[rng.below(DELIM_WORDS.len())]);
+        }
+        lines.push(l);
+    }
+    lines.join("\n")
+}
+
 fn gen_desc(rng: &mut Rng, cfg: &GenCfg) -> Option<String> {
     if !cfg.descriptions || !rng.chance(1, 4) {
         return None;
+    }
+    if cfg.delimiter_text && rng.coin() {
+        return Some(delimiter_text(rng));
     }
     if cfg.hostile_text && rng.coin() {
         Some(HOSTILE[rng.below(HOSTILE.len())].to_string())
